@@ -152,9 +152,10 @@ PROPS["C14"] = {
     "design": "DESIGN.md §3 C14",
 }
 PROPS["C15"] = {
-    "text": "Theorems (in-memory model, one normal consumer with any topic filter, all histories): the delivered message arrived "
-            "in the waiting list before every matching message still waiting (FifoInv over arrival stamps, preserved by every "
-            "call; rotation of foreign topics keeps the relative order of matching ones); a returned message gets the next "
+    "text": "Theorems (in-memory model, ANY number of consumers with any topic filters, all histories): the waiting list is in "
+            "arrival order in every reachable state (FifoInv, preserved by every call: since the full-turn poll, fix 4c9afb3, "
+            "nothing is rotated); the delivered message is the OLDEST live message of the consumer's queue and topics "
+            "(fifo_oldest_first) and arrived before every matching message still waiting; a returned message gets the next "
             "stamp, i.e. is ahead of everything enqueued later. Tie: ~600 histories per quick run, backlogs 0..35 with foreign "
             "topics, interleaved enqueues, rejects and restarts; oracle: no delivery overtakes an earlier matching live message. Redis (since the fix recorded for C15): the list fetch returns the oldest served name for EVERY list length (C15_redis_take_list_oldest, via the tail-window identity of LRANGE); tie: ~150 sequential histories with backlogs around the window of ten.",
     "note": MEM_NOTE + "The in-memory broker keeps one FIFO per queue regardless of priority.",
@@ -169,7 +170,9 @@ PROPS["C11"] = {
             "it); inclusion = union with the last registration winning, for one inclusion and for a worker made of any list of "
             "routers; dispatch_exact: the worker runs function f for a job (t, q) iff the actor registered under t has queue q and "
             "function f, otherwise it leaves the message alone; in-memory broker: deliveries match the consumer's queue and topic "
-            "filter, a foreign non-expired message is only rotated. Tie: ~900 router worlds per quick run compared with the real "
+            "filter; live messages of other topics and other queues are untouched by a poll (same records, same order) and NEVER "
+            "BLOCK it: a poll delivers exactly when a live message of its queue and topics waits anywhere in the list, and delivers "
+            "the first one (C11_mem_foreign_never_blocks; since fix 4c9afb3, which removed the lock-step finding). Tie: ~900 router worlds per quick run compared with the real "
             "Router/Worker objects, ~260 of them with a real Worker run in virtual time on a shared in-memory queue (1-2 workers), "
             "plus ~250 shared-queue broker histories.",
     "note": "Dispatch runs use the in-memory broker only: the Redis prefix filter (<topic>:) and the RabbitMQ reject+requeue filter "
